@@ -1,6 +1,6 @@
 """C03 (bounded stand-in): EDIF write-then-read returns the same netlist."""
-from props import _rtb
-LEVEL = 'exploration'
+from props import _rtb, _pv
+LEVEL = 'other'
 PID = 'C03'
 SCRIPT = 'b_c03.py'
 SPEC = {'quick': {'designs': 150, 'styles': 2, 'files': {'edif': 30000}, 'limit': 20, 'file_limit': 60},
@@ -12,13 +12,19 @@ RULE = ('case = a netlist built through the public API from a seeded abstract de
 
 
 def run(rep, tier, seed):
-    rep.explanation = ('bounded stand-in only: canon(parse(compose(n))) == canon(n) with ports in order, nets with name/width/base and '
+    failed = _pv.run_suite(rep, PID, 'ecomposer', tier)
+    rep.explanation = ('helper level (P): ComposeEdif._get_wire_index_(cable, wire) == position of the wire in cable.wires + cable.lower_index for every listed wire (TypeError only for an unlisted one), for all heaps satisfying Inv; everything else: '
+                       'bounded stand-in: canon(parse(compose(n))) == canon(n) with ports in order, nets with name/width/base and '
                        'per-bit endpoints in order, typed instance properties, top and names; the written file is accepted by the reader, '
                        'is a balanced s-expression defining cells before use (independent s-expression reading); Inv of the re-read netlist')
     rep.assumptions.append('tier B: everything outside the stated bounds is unexplored; cable names ending in [digits] are not generated '
                            '(inexpressible under the name[i] bit-net convention of C05)')
     _rtb.run(rep, PID, SCRIPT, tier, seed, SPEC, RULE, gen_bounds=_rtb.HIER_BOUNDS)
+    _pv.report_failed(rep, failed)
+    rep.trusted = list(getattr(rep, 'trusted', []) or []) + ['pyvc VC generator (DESIGN.md 3), z3/cvc5', 'IR heap model, positional list axioms (at/idx) of pyvc/logic.py']
+    rep.assumptions.append('Bundle.lower_index holds an int (documented type); the netlist satisfies Inv')
 
 
 def replay(path):
+    if _pv.replay_obligation(path): return 0
     return _rtb.replay(path, PID, SCRIPT)
